@@ -138,6 +138,16 @@ def cases(tier: str, seed: int) -> list[dict]:
                         modes = ["axis", "negaxis", "dim"] + (["default"] if last else [])
                         for mode in (modes if tier == "thorough" else [rng.choice(modes)]):
                             out.append(_linear_case(w, kind, extras, perm, rng.choice(dtypes), "mc", mode))
+    # a mesh that NAMES an edge dimension (optional attribute) which no variable uses: variables on no grid are still refused,
+    # face and node variables still flatten
+    m = W.mesh_from_squares([["Q", "A"]])
+    m["edges"] = [list(e) for e in W.mesh_edges(m["faces"])]
+    wu = W.counts_world("ugrid", nface=len(m["faces"]), nnode=len(m["nodes"]), nedge=-1)
+    wu["mesh"] = m
+    wu["enc"] = {"edge_dim": "declared", "supplied": []}
+    out.append(_refused_case(wu, "mc"))
+    for kind in ("face", "node"):
+        out.append(_wound_case(wu, kind, [("t", 2)], ["t"] + list(W.kind_dims(wu, kind)), "f8", "mc"))
     # seeded larger shapes
     for _ in range(10 if tier == "quick" else 150):
         conv = rng.choice(W.ALL_CONVS)
